@@ -188,8 +188,13 @@ EXPORT int _vsnwprintf_s_chk(wchar_t *restrict dest, rsize_t dmax,
             ret = vswprintf(tmp, 512, fmt, ap2);
         } else {
             wchar_t *tmp = (wchar_t *)malloc(dmax * sizeof(wchar_t));
-            ret = vswprintf(tmp, dmax, fmt, ap2);
-            free(tmp);
+            if (unlikely(!tmp)) {
+                errno = ENOMEM;
+                ret = -1;
+            } else {
+                ret = vswprintf(tmp, dmax, fmt, ap2);
+                free(tmp);
+            }
         }
         /* this will bump ret to > 0 */
     }
